@@ -400,7 +400,7 @@ def step(run, op):
                 # the precondition itself: an object lacking one of the receiver's rdm descriptors is refused, and the
                 # receiver keeps every RDM and descriptor value (nothing is silently dropped)
                 lacking = other.copy()
-                drop = gen.pick(rng, [k for k in lacking.rdm_descriptors if k != 'index'])
+                drop = gen.pick(rng, [k for k in obj.rdm_descriptors if k != 'index'])   # one the RECEIVER has
                 del lacking.rdm_descriptors[drop]
                 fb = fingerprint(obj)
                 try:
